@@ -199,6 +199,23 @@ fn sized_rows<L: Letter>(rep: &mut Report) {
                     if f == s || s == f || f2 == s2 {
                         rep.bad("ArcUnion ==: unions holding different variants compare equal", pair.clone());
                     }
+                    // clone_from makes the destination a copy of the source, variant included; the Debug output of a union
+                    // names the variant it holds
+                    {
+                        let mut d = f.clone();
+                        d.clone_from(&s);
+                        if !d.is_second() || d != s || !ArcUnion::ptr_eq(&d, &s) {
+                            rep.bad("ArcUnion clone_from: the destination is not a copy of the source (different variants of one allocation)", pair.clone());
+                        }
+                        let mut d = s2.clone();
+                        d.clone_from(&f2);
+                        if !d.is_first() || d != f2 {
+                            rep.bad("ArcUnion clone_from: the destination is not a copy of the source (different variants)", pair.clone());
+                        }
+                        if format!("{:?}", s).starts_with("First") || format!("{:?}", f).starts_with("Second") {
+                            rep.bad("ArcUnion Debug: names the wrong variant (different variants)", format!("{} : {:?} / {:?}", pair, f, s));
+                        }
+                    }
                     #[allow(clippy::nonminimal_bool)]
                     if !(f != s) || !(s != f) || !(f2 != s2) {
                         rep.bad("ArcUnion !=: unions holding different variants do not compare unequal", pair.clone());
